@@ -2504,23 +2504,49 @@ _READ_FUNCS = ('len', 'sorted', 'list', 'tuple', 'set', 'dict', 'frozenset',
                'sum')
 
 
+_INDEX = {}
+
+
+def _mentions(tree):
+    """Names a module mentions as an imported name or as an attribute."""
+    key = ('m', id(tree))
+    if key not in _INDEX:
+        out = set()
+        for x in ast.walk(tree):
+            if isinstance(x, ast.alias):
+                out.add(x.name)
+                if x.asname:
+                    out.add(x.asname)
+            elif isinstance(x, ast.Attribute):
+                out.add(x.attr)
+        _INDEX[key] = (tree, out)
+    return _INDEX[key][1]
+
+
+def _tree_index(tree):
+    """(parent map, {name: [Name nodes loaded]}) of a module, computed once
+    per tree object (the tree is kept alive by the cache entry)."""
+    key = ('t', id(tree))
+    if key not in _INDEX:
+        pm, loads = {}, {}
+        for x in ast.walk(tree):
+            for ch in ast.iter_child_nodes(x):
+                pm[ch] = x
+            if isinstance(x, ast.Name) and isinstance(x.ctx, ast.Load):
+                loads.setdefault(x.id, []).append(x)
+        _INDEX[key] = (tree, pm, loads)
+    return _INDEX[key][1], _INDEX[key][2]
+
+
 def _only_read(tree, name, others=()):
     """Every use of the module-level `name` reads it (subscript, membership,
     iteration, read-only methods, pure builtins) and no other module
     mentions it."""
     for t in others:
-        for x in ast.walk(t):
-            if (isinstance(x, ast.alias) and name in (x.name, x.asname)) or \
-                    (isinstance(x, ast.Attribute) and x.attr == name):
-                return False
-    pm = {}
-    for x in ast.walk(tree):
-        for ch in ast.iter_child_nodes(x):
-            pm[ch] = x
-    for x in ast.walk(tree):
-        if not (isinstance(x, ast.Name) and x.id == name and
-                isinstance(x.ctx, ast.Load)):
-            continue
+        if name in _mentions(t):
+            return False
+    pm, loads = _tree_index(tree)
+    for x in loads.get(name, ()):
         p = pm.get(x)
         if isinstance(p, ast.Subscript) and p.value is x and \
                 isinstance(p.ctx, ast.Load):
@@ -3221,20 +3247,20 @@ def normalise(trees, known=None):
     ({path: ast.Module}); returns the log [(qname, sites, removed)]."""
     if known is None:
         known = baseline()
+    _INDEX.clear()
     clog = inline_new_constants(trees, known)
     clog += inline_new_class_constants(trees, known)
     n = desugar(trees)
     n += _split_selector_calls(trees, known)
-    log = clog + Inliner(trees, known).run()
+    ilog = Inliner(trees, known).run()
+    log = clog + ilog
     n += thread_decisions(trees)
-    n += desugar(trees)
-    for t in trees.values():
-        q = _Quantifiers()
-        q.visit(t)
-        if q.count:
-            ast.fix_missing_locations(t)
-        n += q.count
-    n += thread_decisions(trees)
+    if ilog or clog:
+        # what the written-out helpers and constants left behind is brought
+        # to the same spellings (nothing to do on a tree where nothing was
+        # written out)
+        n += desugar(trees)
+        n += thread_decisions(trees)
     for t in trees.values():
         tl = _TableLookup(t)
         tl.visit(t)
